@@ -163,6 +163,15 @@ impl<VM: VMBinding, R: Region + 'static> RegionPageResource<VM, R> {
         let old = alloc.cursor();
         let new = address.align_up(BYTES_IN_PAGE);
         let pages = (old - new) / BYTES_IN_PAGE;
+        #[cfg(mmtk_verif)]
+        if pages > 0 {
+            crate::util::verif::rt::event(
+                crate::util::verif::rt::ev::PAGES_RELEASE,
+                1,
+                new.as_usize(),
+                pages,
+            );
+        }
         self.common().accounting.release(pages);
         alloc.set_cursor(new);
     }
